@@ -420,6 +420,28 @@ def pat_block_col_diag(rng, s):
     return [col, diag, row] if rng.random() < 0.5 else [col, row]
 
 
+def pat_block_single(rng, s):
+    """containers with a single block (arity 1)"""
+    a, b = gen_endo(rng, s, 0), gen_endo(rng, s, 0)
+    k = rng.random()
+    if k < 0.35:
+        return [BlockColumnOperator([a]), BlockRowOperator([b])]
+    if k < 0.7:
+        return [BlockColumnOperator([a]), BlockDiagonalOperator([b]), BlockRowOperator([gen_endo(rng, s, 0)])]
+    return [BlockColumnOperator({'k': a}), BlockDiagonalOperator({'k': b})]
+
+
+def pat_block_nested(rng, s):
+    """equal structures, differently nested containers: [[a, a]] as one nested row vs a 1x2 container"""
+    a, b, c, d = (gen_endo(rng, s, 0) for _ in range(4))
+    col = BlockColumnOperator([[a, b]])                       # s -> [[s, s]]
+    if rng.random() < 0.5:
+        row = BlockRowOperator([BlockRowOperator([c, d])])    # [[s, s]] -> s, container [.]
+        return [col, row]
+    diag = BlockDiagonalOperator([BlockDiagonalOperator([c, d])])   # container [.] of a block on [s, s]
+    return [col, diag]
+
+
 def pat_identity(rng, s):
     return [IdentityOperator(s)]
 
@@ -430,7 +452,7 @@ def pat_scalars(rng, s):
 
 PATTERNS = [pat_inverse_pair, pat_lazy_inverse_pair, pat_rotations, pat_rot_hwp, pat_pol_hwp,
             pat_index, pat_pack, pat_reshape, pat_moveaxis, pat_block_diag_diag, pat_block_col_diag,
-            pat_identity, pat_scalars]
+            pat_block_single, pat_block_nested, pat_identity, pat_scalars]
 
 
 def gen_chain(rng: random.Random, s, length: int, depth: int, p_pattern: float = 0.5):
